@@ -71,6 +71,13 @@ def mkUEnv (tbl : List (String × GOut)) : UEnv :=
         | ["set", k, v] => (match v.toInt? with | some i => .ok (ctxSet c k i) | none => .ok c)
         | _ => .ok c }
 
+partial def showGuard : GuardExpr → String
+  | .named n p => "named(" ++ n ++ (if p.isSome then ",params" else "") ++ ")"
+  | .stateIn p => "stateIn(" ++ ((stateInTarget p).getD "-") ++ ")"
+  | .and cs => "and[" ++ ",".intercalate (cs.map showGuard) ++ "]"
+  | .or cs => "or[" ++ ",".intercalate (cs.map showGuard) ++ "]"
+  | .not c => "not[" ++ showGuard c ++ "]"
+
 structure DS where
   m : Option Machine := none
   env : List (String × GOut) := []
@@ -107,10 +114,35 @@ def handle (d : DS) (line : String) : DS × String :=
        | .ok j => (d, "{\"r\":" ++ jarr ((matchingDescriptors (jsonStrings j) "").map jstr) ++ "}")
        | .error e => (d, "{\"err\":" ++ jstr e ++ "}"))
     | _ => (d, "{\"err\":\"bad Q match\"}")
+  else if line.startsWith "Q parseguard " then
+    match parseJson (dropPrefix line 13) with
+    | .error e => (d, "{\"err\":" ++ jstr e ++ "}")
+    | .ok j =>
+      match parseGuard j with
+      | .ok g => (d, "{\"r\":" ++ jstr (showGuard g) ++ "}")
+      | .error e => (d, "{\"e\":" ++ jstr e ++ "}")
   else match d.m with
   | none => (d, "{\"err\":\"nomachine\"}")
   | some mm =>
-    if line.startsWith "Q resolve " then
+    if line.startsWith "Q guard " then
+      -- {"g": <guard json>, "cfg": [[key,...],...]}
+      match parseJson (dropPrefix line 8) with
+      | .error e => (d, "{\"err\":" ++ jstr e ++ "}")
+      | .ok j =>
+        let cfg : List Path := match j.get? "cfg" with
+          | some (.arr ps) => ps.map jsonStrings
+          | _ => []
+        match j.get? "g" with
+        | none => (d, "{\"err\":\"no g\"}")
+        | some gj =>
+          match parseGuardOpt (some gj) with
+          | .error e => (d, "{\"e\":" ++ jstr ("parse:" ++ e) ++ "}")
+          | .ok none => (d, "{\"r\":true}")
+          | .ok (some g) =>
+            match evalGuard mm cfg (uenv.genv [] "E") g with
+            | .ok b => (d, "{\"r\":" ++ (if b then "true" else "false") ++ "}")
+            | .error (.missing n) => (d, "{\"e\":" ++ jstr ("missing:" ++ n) ++ "}")
+    else if line.startsWith "Q resolve " then
       let rest := dropPrefix line 10
       match rest.splitOn "] " with
       | [a, tgt] =>
